@@ -43,6 +43,8 @@ func scenarioC02(r *Run) {
 	cfg.Listeners = []LsnCfg{
 		{Channel: "alpha", Kind: "tcp", Addr: "127.0.0.1:6001"},
 		{Channel: "beta", Kind: "tcp", Addr: "127.0.0.1:6002"},
+		// a listener for a channel the server does not offer: connections to it are refused
+		{Channel: "ghost", Kind: "tcp", Addr: "127.0.0.1:6003"},
 	}
 	k := 2 + c.Pick(5, "k")
 	maxPayload := payloadCap(r, carrier) / 4
@@ -77,6 +79,10 @@ func scenarioC02(r *Run) {
 			lc.Mode = "paused-app"
 		case m == 6:
 			lc.Mode = "paused-target"
+		case m == 7 && c.Chance(1, 3, "refused") && i > 0:
+			// asks for a channel the server refuses, while the others are open
+			lc.Mode = "refused"
+			lc.Lsn = cfg.Listeners[2]
 		case m == 7 && c.Chance(1, 2, "closing"):
 			// closes in the middle of its transfer while the others carry on
 			lc.Mode = []string{"closing-app", "closing-target"}[c.Pick(2, "closing-side")]
@@ -128,6 +134,7 @@ func scenarioC02(r *Run) {
 	if active == 0 {
 		lc := conns[k-1]
 		lc.Mode = "active"
+		lc.Lsn = cfg.Listeners[lc.TIdx]
 		strip := func(plan []Op) []Op {
 			var out []Op
 			for _, o := range plan {
@@ -164,6 +171,13 @@ func scenarioC02(r *Run) {
 	extra := func() []Ev { return append(cs.OpenEv(beforeOpen), cs.PeerEvents()...) }
 	// a connection that was closed on purpose in mid-transfer is over: nothing more is demanded of it
 	ended := func(lc *LConn) bool {
+		if lc.Mode == "refused" {
+			if lc.App == nil {
+				return false
+			}
+			_, _, eof, rerr, _, _ := lc.App.Snapshot()
+			return eof || rerr != nil
+		}
 		if lc.Mode != "closing-app" && lc.Mode != "closing-target" {
 			return false
 		}
@@ -248,4 +262,12 @@ func scenarioC02(r *Run) {
 		return
 	}
 	cs.CheckPairing("isolation")
+	for _, lc := range conns {
+		if lc.Mode == "refused" {
+			r.Count("refused_opens_among_live_connections")
+			if _, rc, _, _, _, _ := lc.App.Snapshot(); rc > 0 || lc.Tp != nil {
+				r.Fail("isolation", "a connection for a channel the server does not offer received %d bytes", rc)
+			}
+		}
+	}
 }
